@@ -328,7 +328,7 @@ class _ChangeComputer:
         lineno = self.lines.get_line_number(offset)
         indents = sourceutils.get_indents(self.lines, lineno)
         result = []
-        for index, line in enumerate(text.splitlines(True)):
+        for index, line in enumerate(sourceutils.split_lines(text, True)):
             if index != 0 and line.strip():
                 result.append(" " * indents)
             result.append(line)
